@@ -365,3 +365,49 @@ _add(Cond('frame_binop_series_unsorted_columns', [('perm', 'int'), ('y0', 'int')
         functions=['Frame._ufunc_binary_operator'],
         bounds='2x3 frame whose column labels 0,1,2 come in any of the 6 orders (symbolic); Series over 2..3 distinct labels symbolic in 0..3 in any order (subset / permutation / superset of the columns); +, -, < (symbolic); concrete cells',
         route='Frame op Series: every column paired with the Series value of ITS label whatever the order of either side; the result columns answer membership / loc_to_iloc consistently', timeout=400))
+
+
+# ---------------------------------------------------------------- hierarchical set algebra over level dtype kinds of either operand
+
+LEVEL_KINDS = ('int64', 'uint64', 'float64', 'int32', 'object')
+
+
+def body_hier_sets_kinds(env, shift, op, flip):
+    """Two depth-2 hierarchies whose level arrays have every pair of dtypes in turn (so the 2-D values arrays have to be brought to a
+    common dtype that may differ from BOTH); the right operand is the left one shifted by 0..2 outer labels."""
+    from vf import rt
+    shift, op, flip = concretize(shift, 0, 2), concretize(op, 0, 2), bool(flip)
+
+    def run():
+        got, exp = [], []
+        for ka in range(len(LEVEL_KINDS)):
+            for kb in range(len(LEVEL_KINDS)):
+                g, e = one(ka, kb)
+                got.append(g); exp.append(e)
+        return got, exp
+
+    def one(ka, kb):
+        sf = env.sf
+
+        def mk(outer, kind):
+            return sf.IndexHierarchy.from_product(sf.Index(env.array(list(outer), LEVEL_KINDS[kind])), sf.Index(env.array([10, 20], LEVEL_KINDS[kind])))
+        oa, ob = (1, 2), (1 + shift, 2 + shift)
+        A = [(o, i) for o in oa for i in (10, 20)]
+        B = [(o, i) for o in ob for i in (10, 20)]
+        a, b = mk(oa, ka), mk(ob, kb)
+        if flip:
+            a, b, A, B = b, a, B, A
+        r = (a.union, a.intersection, a.difference)[op](b)
+        ref = sorted((set(A) | set(B), set(A) & set(B), set(A) - set(B))[op])
+        labels = sorted((int(x[0]), int(x[1])) for x in r.values.tolist())
+        got = [type(r).__name__, len(r), [list(t) for t in labels], [bool(t in r) for t in sorted(set(A) | set(B))]]
+        exp = ['IndexHierarchy', len(ref), [list(t) for t in ref], [t in ref for t in sorted(set(A) | set(B))]]
+        return got, exp
+    return rt.untraced(run)
+
+
+_add(Cond('hierarchy_set_algebra_level_kinds', [('shift', 'int'), ('op', 'int'), ('flip', 'bool')], body_hier_sets_kinds,
+        ranges={'shift': (0, 2), 'op': (0, 2)},
+        functions=['IndexHierarchy._ufunc_set', '_ufunc_set_2d'],
+        bounds=f'two depth-2 hierarchies (2 x 2 leaves) over EVERY pair of level dtypes from {LEVEL_KINDS} inside each path; right operand = left shifted by 0..2 outer labels (equal / overlapping / disjoint); union / intersection / difference (symbolic), operands in either order',
+        route='IndexHierarchy.union / intersection / difference across level dtypes: exactly the label tuples set algebra prescribes, each once, membership agrees', timeout=400))
